@@ -693,4 +693,28 @@ def run(ctx):
     run.rule(R10, "log entries are keyed by (account, id): every creator of an entry draws the id from the counter of the account it saves the entry under", floor=3)
     from .shared import log_id_account
     log_id_account(ctx, R10)
+    R11 = "C04.R11"
+    run.rule(R11, "an output is credited by one entry: the reservation step creates records only for outputs that are not on record yet - the context of a self-paid invoice also lists the invoiced output, which the invoice's own TxReceived entry (and its own account) accounts for", floor=1)
+    lk11 = ctx.fn(c.LW + "internal::selection::lock_tx_context")
+    if lk11 is None:
+        run.error("C04.R11: lock_tx_context not found")
+    else:
+        OD11 = c.LW + "types::OutputData"
+        saves11 = []
+        for b, t in cfg.find_calls(lk11, c.WOB + "save"):
+            lits = [x for x in vf.producers(lk11, t["a"][1]) if x[0] == "agg" and x[1] == OD11] or [x for x in vf.origins(lk11, t["a"][1]) if x[0] == "agg" and x[1].startswith(OD11)]
+            if lits:
+                saves11.append(b)
+        if not saves11:
+            run.error("C04.R11: lock_tx_context no longer saves a new OutputData record (anchor missing)")
+        fresh = set()
+        for gb, gt in cfg.find_calls(lk11, c.WOB + "get"):
+            fresh |= cfg.call_guard(lk11, gb).fail
+        for b in saves11:
+            # inside the loop: every way into the save from the loop head passes the 'no such record' edge of a look-up
+            heads = [hb for hb, ht in lk11.calls() if (ht.get("f") or "").endswith("Iterator::next") and b in cfg.reach(lk11, starts=tuple(lk11.succ(hb)), cut_nodes=frozenset({hb})) and hb in cfg.reach(lk11, starts=[b])]
+            held = bool(fresh) and bool(heads) and all(b not in cfg.reach(lk11, starts=tuple(lk11.succ(hb)), cut_edges=fresh, cut_nodes=frozenset({hb})) for hb in heads)
+            run.instance(R11, {"fn": "lock_tx_context", "obligation": "the record of a created output is written only on the not-found edge of a look-up of its key", "site": c.site_of(lk11, b), "look-ups": len(cfg.find_calls(lk11, c.WOB + "get"))}, held=held)
+            if not held:
+                run.finding(Finding(R11, lk11.id, "the reservation step writes (and credits to the TxSent entry) every output the context lists, also one that is on record already: paying one's own invoice credits the invoiced amount twice (TxReceived and TxSent) and files the invoiced output under the payer's account", site=c.site_of(lk11, b)))
     run.not_decided += ["equality with the node's UTXO set", "the ledger identity credits - debits = total + locked", "confirmation / maturity arithmetic"]
